@@ -329,10 +329,10 @@ def run(repo, rep, tier):
                 raise AnalysisError('post_process_findings: suppression list not computable (forks: %s)' % fe.get('<forks>'))
             rows_ = fe['<table>']['kex'][A]
             noted = len(rows_) > 3 and any('OpenSSH' in str(t) or 'bugzilla' in str(t) or 'fallback' in str(t) for t in rows_[3])
-            if (A in r[0]) != want or noted != want:
+            if noted != want:       # (whether the algorithm is also kept out of the recommendations is property C13's clause, decided there)
                 bad.append(({'offered': gexin, 'modulus': size, 'banner': ban}, A in r[0], noted))
     rep.floor('openssh-note', 'fallback-note rows interpreted', nrows, 20)
-    rep.check('openssh-note', 'note + suppression fire exactly when the algorithm is offered, measured at 2048 and the banner says OpenSSH (%d rows)' % nrows, not bad, ppf,
+    rep.check('openssh-note', 'the explanatory note is attached exactly when the algorithm is offered, measured at 2048 and the banner says OpenSSH (%d rows)' % nrows, not bad, ppf,
               'OpenSSH fallback handling wrong for %s: suppressed=%s, note in row 3=%s' % (bad[0] if bad else ({}, None, None)), stmt='openssh fallback note table')
 
     # ---- the table the notes are written to is private to the scan (shared rule, props/_dbcopy.py) ----------------------------------------
